@@ -210,6 +210,31 @@ func c18Frame(c *core.Ctx, pkg *packages.Package) {
 		})
 		okRetry = strings.Contains(cond, "err != nil") && strings.Contains(cond, ".Scan()") && appends && reparses
 	}
+	// what is kept across the continuation's Scan() is a copy: Scanner.Bytes() points into the scanner's buffer, which the next
+	// Scan may overwrite or compact
+	if retry != nil {
+		acc := ""
+		ast.Inspect(retry.Body, func(n ast.Node) bool {
+			if as, ok := n.(*ast.AssignStmt); ok && len(as.Lhs) == 1 && len(as.Rhs) == 1 {
+				if call, ok := as.Rhs[0].(*ast.CallExpr); ok && core.IsBuiltin(info, call, "append") && acc == "" {
+					acc = types.ExprString(as.Lhs[0])
+				}
+			}
+			return true
+		})
+		aliased := false
+		ast.Inspect(loop.Body, func(n ast.Node) bool {
+			if as, ok := n.(*ast.AssignStmt); ok && as.Tok == token.DEFINE && len(as.Lhs) == 1 && types.ExprString(as.Lhs[0]) == acc && len(as.Rhs) == 1 {
+				if call, ok := ast.Unparen(as.Rhs[0]).(*ast.CallExpr); ok {
+					if f := core.Callee(info, call); f != nil && core.RecvTypeName(f) == "Scanner" && f.Name() == "Bytes" {
+						aliased = true
+					}
+				}
+			}
+			return true
+		})
+		c.Check(acc != "" && !aliased, "C18.multiline", "readPointsFromIO#owned-line", loop.Pos(), "the record accumulated over several lines (%s) starts as the scanner's own buffer (in.Bytes()), which the next Scan() may overwrite: a multi-line point that sits on a buffer refill boundary is replayed as garbage and the rest of the file is misaligned", acc)
+	}
 	c.Check(okRetry, "C18.multiline", "readPointsFromIO#continuation", loop.Pos(), "the reader parses the third line alone: a point whose string field contains a newline is written over several lines (Fields.MarshalBinary does not escape newlines), so its recording cannot be replayed (`unbalanced quotes`) and the lines after it are taken for the next record")
 }
 
